@@ -38,7 +38,7 @@ OPTIONAL = {"k_plain_plus_ptr"}
 DERIVED = {"k_addrof_field_a": 0, "k_addrof_field_c": 8, "k_addrof_arr_elem": None}
 
 
-def check_op(ctx, k, log):
+def check_op(ctx, k, log, room_scale=1):
     base = ctx.sandbox_base(log)
     size = 1 << log
     args = [base]
@@ -56,7 +56,7 @@ def check_op(ctx, k, log):
             v = ctx.sym(nm, 64)
             vec.append([0, b0, b0 + size - 1, b0 + size, b0 - 1, 0x1000])
         elif kind.startswith("cell"):
-            room = int(kind.split(":")[1])
+            room = int(kind.split(":")[1]) * room_scale
             v = ctx.sym(nm, 64)
             ctx.assume(z3.UGE(v, base), z3.ULE(v - base, BV(size - room, 64)))
             vec.append([b0 + 0x40, b0, b0 + size - room])
@@ -102,6 +102,23 @@ def check_op(ctx, k, log):
         mem.update({b0 + i: 0 for i in range(16)})
         mem.update({b0 + size - 16 + i: 0xFF for i in range(16)})
     ctx.validate(k, vs, base=b0 if (mem or k.startswith("k_malloc") or True) else None, mem=mem, env=env)
+
+
+def check_slot(ctx, k, log):
+    """the invariant holds for a long-lived tainted pointer on every exit of the operation, including the refusing one"""
+    base = ctx.sandbox_base(log)
+    size = 1 << log
+    slot = ctx.buffer(8, name="slot")
+    old = z3.Concat(*reversed(slot.init))
+    ctx.assume(z3.Or(old == 0, ctx.in_region(old, base, size)))
+    addr = ctx.sym("addr", 64)
+    paths = ctx.run(k, [base, slot, addr])
+    for q in paths:
+        now = z3.Concat(*[ctx.eng.cbyte(q, slot.addr + i) for i in reversed(range(8))])
+        ctx.require(q, z3.Or(now == 0, ctx.in_region(now, base, size)),
+                    "the tainted pointer is null or inside the region when the operation %s" % ("returns" if q.status == "ret" else "refuses the address"))
+    ctx.only(paths, "ret", "abort")
+    ctx.expect(paths, ret=1, abort=1)
 
 
 def check_vol(ctx, k, log):
@@ -175,10 +192,17 @@ def jobs(tier, seed):
             src = '#include "verif_sandbox.hpp"\nusing S = %s;\n#include "C03_kernels.inc"\n' % sbx
             out.append(Job("C03_%s_%d" % (sbx, gi), src,
                            [dict(name="%s %s" % (sbx, k), fn=check_op, kw=dict(k=k, log=log), optional=(k in OPTIONAL)) for k in grp]))
+    # B64M: guest pointers have the application's width but a different representation (offset from base, masked into the region)
+    src = '#include "verif_sandbox.hpp"\nusing S = B64M;\n#include "C03_kernels.inc"\n'
+    out.append(Job("C03_B64M_loads", src, [dict(name="B64M %s" % k, fn=check_op, kw=dict(k=k, log=32, room_scale=2))
+                                          for k in ("k_load_ptr", "k_load_ptr_arr_elem", "k_load_ptr_arr_elem_direct", "k_load_struct_field",
+                                                    "k_load_struct_copy_field", "k_deref_ptrptr")]))
     for sbx, log in backends[:1]:
         src = '#include "verif_sandbox.hpp"\nusing S = %s;\n#include "C03_kernels.inc"\n' % sbx
         out.append(Job("C03_%s_vol" % sbx, src, [dict(name="%s adversarial %s" % (sbx, k), fn=check_vol, kw=dict(k=k, log=log))
                                                  for k in ("k_vol_add", "k_vol_sub", "k_vol_addridx", "k_vol_field")], native=False))
+    src = '#include "verif_sandbox.hpp"\nusing S = B32;\n#include "C03_kernels.inc"\n'
+    out.append(Job("C03_B32_slot", src, [dict(name="B32 k_assign_slot", fn=check_slot, kw=dict(k="k_assign_slot", log=32))], native=False))
     ssrc = '#include "verif_sandbox.hpp"\nusing S = B32S;\n#include "C03_small.inc"\n'
     out.append(Job("C03_B32S", ssrc, [dict(name="B32S " + k, fn=check_small, kw=dict(k=k)) for k in ("k_small_malloc_int", "k_small_malloc_vs24", "k_small_accept", "k_small_assign")],
                    native=False))
